@@ -57,6 +57,7 @@ struct rthr {
 	int		timer_round_len;
 	struct iv_event_raw td_raw;
 	int		td_registered, td_requested;
+	int		in_wait_cb;	/* inside a callback that may run the child reaper */
 	int		ext_live;	/* model count of library-internal loop references (pools, threads, ...) */
 };
 
@@ -90,6 +91,7 @@ int have_viol(void);
 void finish(int status) __attribute__((noreturn));
 struct rthr *cur_thr(void);
 int live_objects(struct rthr *th);
+int live_upper(struct rthr *th);
 void note_freed(void *p, size_t n);
 void obj_free_mem(int id);
 struct cookie *new_cookie(int id);
@@ -101,10 +103,14 @@ long chan_read(int chan, int end, long n);
 
 /* extension points implemented in ext.c */
 int ext_live(int id);
+int ext_maybe_live(int id);
+int ext_mem_idle(int id);
+int ext_posts_in_flight(int owner_thread);
 int ext_reg(struct rthr *th, int id, const struct pop *op);
 int ext_unreg(struct rthr *th, int id, int keep);
 int ext_op(struct rthr *th, const struct pop *op);
 void ext_cb(struct rthr *th, int id, int kind, int band, int64_t x1, int64_t x2);
+void ext_cb_exit(struct rthr *th, int id, int kind);
 int ext_foreign_thread_ok(int id, int kind);
 int ext_nesting_ok(int kind, int outer_kind);
 int ext_stale_ok(int id, int kind, int band);
